@@ -1618,7 +1618,11 @@ int expr_sup_constred(expr * value, int * result)
         expr * left_value = value->left;
 
         value->type = EXPR_ENUMTYPE;
-        value->comb = left_value->comb;
+        if (value->comb.comb != COMB_TYPE_INT)
+        {
+            /* an enumerator already converted to int stays int */
+            value->comb = left_value->comb;
+        }
         value->enumtype = left_value->enumtype;
 
         free(left_value);
